@@ -1,4 +1,5 @@
 import GN.Props.C05
+import GN.EventLoop.Progress
 open GN.Props.C05
 #print axioms fires_at_most_once
 #print axioms cleared_job_never_fires
@@ -6,3 +7,6 @@ open GN.Props.C05
 #print axioms firing_needs_a_live_job
 #print axioms clear_is_idempotent
 #print axioms delay_conversion_never_shortens
+#print axioms GN.EventLoop.Progress.uncleared_oneshot_fires_exactly_once
+#print axioms GN.EventLoop.Progress.other_steps_cannot_stop_it
+#print axioms GN.EventLoop.Progress.uncleared_oneshot_fires_within_two_own_steps
